@@ -293,7 +293,36 @@ fn noise(rng: &mut ChaCha8Rng) -> String {
 
 fn nested(rng: &mut ChaCha8Rng) -> (String, &'static str) {
     let depth = rng.gen_range(2..=64);
-    match rng.gen_range(0..9) {
+    match rng.gen_range(0..10) {
+        9 => {
+            // ragged array literals: elements of different kinds and depths in one array, in every order
+            fn ragged(rng: &mut ChaCha8Rng, depth: usize) -> String {
+                let n = rng.gen_range(0..4);
+                let items: Vec<String> = (0..n)
+                    .map(|_| match rng.gen_range(0..if depth == 0 { 5 } else { 8 }) {
+                        0 => rng.gen_range(0..9).to_string(),
+                        1 => "2.5".to_string(),
+                        2 => "\"a\"".to_string(),
+                        3 => "true".to_string(),
+                        4 => "-1".to_string(),
+                        _ => ragged(rng, depth - 1),
+                    })
+                    .collect();
+                format!("[{}]", items.join(", "))
+            }
+            let a = ragged(rng, 3);
+            let b = ragged(rng, 2);
+            let use_ = [
+                "sum(i in A) { 1 }",
+                "len(A)",
+                "sum((i, e) in enumerate(A)) { i }",
+                "len(union(A, B))",
+                "len(difference(A, B)) + len(intersection(B, A))",
+                "sum(r in A) { sum(e in r) { 1 } }",
+                "sum(e in union(B, A)) { 1 }",
+            ][rng.gen_range(0..7)];
+            (format!("min x + {use_}\ns.t.\n    x >= 0\nwhere\n    let A = {a}\n    let B = {b}\ndefine\n    x as Real(0, 1)\n"), "ragged-arrays")
+        }
         5 => {
             // scoped blocks nested inside the iterator position
             let d = depth.min(40);
